@@ -336,20 +336,35 @@ META["C10"] = {
 }
 
 META["C04"] = {
-    "level": "exploration",
-    "level_text": "Bounded contract check on the real operators with lambdas compiled from a "
-    "generated source module: ~150 lambdas whose free names resolve to module globals of every "
-    "transportable type, closure cells (two levels), nested class attributes and module attributes, "
-    "in 14 binder contexts (nested lambdas, comprehensions, called lambdas, parameters shadowing "
-    "globals to depth 3); after all streams are built every captured name is rebound / deleted / "
-    "mutated and the emitted lambda is evaluated with the reference semantics against what the "
-    "callable returned at the call; non-transportable captures must raise ValueError.",
-    "level_note": "Bounded stand-in, except check_ast (proved). Discharged deductively (visitor induction over every node class): check_ast raises ValueError iff some Constant in the tree holds a value outside the transportable types, and returns normally otherwise (the designed refusal 'non-transportable constant'). inspect.getclosurevars and source recovery are unmodelled "
-    "externals; enum members are not covered.",
-    "technique": "bounded contract check of the capture-by-value contract on generated source modules, oracle = the callable itself at call time (labelled stand-in); check_ast under contract, discharged with z3",
+    "level": "other",
+    "level_text": "Mixed. The SCOPING clause (names bound by the lambda's own parameters, by nested "
+    "lambdas and by comprehensions are never replaced) is under contract on _rewrite_captured_vars "
+    "and discharged for every tree: is_arg(name) holds exactly when the name is in some frame of "
+    "the ignore stack; visit_Lambda pushes the names of EVERY parameter kind (positional-only, "
+    "plain, keyword-only, *args, **kw) and the four comprehension forms push every Name of every "
+    "`for` target before the sub-tree is visited (precondition `binders_on` of generic_visit, "
+    "proved at each call), and each leaves the stack as it found it (visitor hypothesis, "
+    "re-established by every method); a dispatch obligation per node class shows that no binder "
+    "class reaches generic_visit without its own visit method (class-level aliases are read from "
+    "the current source). The designed refusal is proved too: check_ast raises ValueError iff some "
+    "Constant holds a non-transportable value. BOUNDED: what is put in place of a free name "
+    "(visit_Name / visit_Attribute / visit_Call: reflection on captured Python values, "
+    "inspect.getclosurevars) and the by-value clause as a whole - ~260 lambdas compiled from a "
+    "generated module whose free names resolve to module globals of every transportable type, "
+    "closure cells, class and module attributes, in binder contexts that shadow them (every "
+    "parameter kind, enclosing-function variables named like globals, equal-but-different values "
+    "captured one after the other); after all streams are built every captured name is rebound / "
+    "deleted / mutated and the emitted lambda is evaluated, type-exactly, against what the callable "
+    "returned at the call.",
+    "level_note": "Proved: the binder discipline of the capture visitor and check_ast. Bounded: "
+    "the value that replaces a captured name, and that visit_Name honours is_arg (its body is "
+    "reflection-heavy and outside engine P). Trusted: NodeTransformer dispatch model, ast.walk "
+    "yields well-formed nodes, nested generators flatten; enum members are not covered.",
+    "technique": "sidecar contracts on _rewrite_captured_vars (is_arg, visit_Lambda, the comprehension visitors, class dispatch) and check_ast discharged with z3 (visitor hypothesis, list lemmas); by-value clause by bounded contract check on generated source modules, oracle = the callable itself at call time (labelled stand-in)",
     "p_keys": True,
-    "explanation": "bounded only",
-    "assumptions": ["one post-call history (everything rebound/deleted/mutated)"],
+    "explanation": "scoping discipline and the refusal proved; replacement values bounded",
+    "assumptions": ["one post-call history (everything rebound/deleted/mutated)",
+                    "visit_Name returns the node unchanged when is_arg holds (bounded)"],
 }
 
 META["C05"] = {
